@@ -29,7 +29,7 @@ T3 = {
  "C08-F": ("B", "algorithm_u128 writes the middle digit group without zero padding", "power-of-two or radix without compact; u128/i128; non-decimal radix; magnitude >= 2^64 * radix^step whose middle group starts with a zero digit", ["C08"], ""),
  "C09-E": ("A", "FORMATTED_SIZE of isize/usize for non-decimal radices 128 -> 64", "power-of-two or radix; isize::MIN in radix 2 needs 65 bytes; exact-size buffer or the allocating facade", ["C09"], ""),
  "C09-F": ("B", "u128 digit_count fallback: one division and a truncating cast to u64", "feature radix without compact; u128/i128; non-decimal non-power-of-two radix; magnitude >= 2^64 * radix^k: digits written in front of the caller's slice", ["C09"], ""),
- "C10-E": ("A", "integral_binary_factor(17) 5 -> 4", "feature radix; radix 17; f64; > 15 digits near a midpoint with a non-negative exponent: large_quorem assertion panics", ["C10"], ""),
+ "C10-E": ("A", "integral_binary_factor(17) 5 -> 4", "feature radix; radix 17; f64; > 15 digits near a midpoint with a non-negative exponent: large_quorem assertion panics", ["C10", "C05"], "the first run was lost to an infrastructure error and the change was only examined after round 4: C05 reported it at once (PANIC large_quorem for radix 17), C10 was silent - 250 generated cases per job and few unmutated numbers; float parsers of the core group now get 20 000 generated cases per job with a share of unmutated valid numbers, and the binade sweep"),
  "C10-F": ("B", "take_n slices unchecked and overflow_digits is computed before zeros / base prefix are skipped", "format + power-of-two; integer formats with a base prefix; input longer than overflow_digits before the prefix is skipped: reads past the input, count > length", ["C10"], ""),
  "C11-E": ("A", "parse_complete only enters the slow path when digits were truncated", "compact (decimal) or radix (non-power-of-two radix); <= 19 digits on or next to a midpoint: complete differs from partial (`9007199254740993` -> garbage)", ["C11"], ""),
  "C11-F": ("B", "char_is_digit_const accepts the symbol whose digit value equals the radix", "feature format; internal-only separators; digit, separator, then exactly ':' (radix 10) / 'G' (radix 16): partial consumes the separator, complete rejects the prefix", ["C11"], "missed at first: no generator produced the byte next to the digit range; gen::boundary_bytes (value == radix symbol, / : @ [ ` {, high-bit digits) now feed the C11 tails and mutations, the C12/C11 alphabets and the C13 junk byte"),
@@ -92,7 +92,48 @@ T4 = {
  "C19-H": ("B", "calculate_power2 scales by the mantissa radix instead of the exponent base", "mixed-base formats; inputs that miss the fast path (14+ hex digits, large exponents); lossy and exact alike", ["C19"], ""),
 }
 
-ROUNDS = [(T3, "/tmp/mut", 3), (T4, "/tmp/mut4", 4)]
+T5 = {
+ "C01-I": ("A", "get_large_int_power pairs LARGE_POW5 with the step of LARGE_POW25", "feature radix without compact; decimal input on the big-integer slow path with a power-of-ten scale of 65 or more: `2.037035976334486312425e90` off by 49 orders of magnitude", ["C01"], ""),
+ "C01-J": ("B", "Bellerophon error_is_accurate `<=` -> `<` (the edit of C05-E, here for decimal input in compact builds)", "feature compact; results in the largest subnormal binade within ~0.01 ulp of a midpoint", ["C01"], ""),
+ "C02-I": ("A", "one transposed digit in the u32 fast_digit_count table (entry for floor(log2 x) == 23)", "non-compact; f32 whose shortest digits are 9955000..9999999: the point / exponent is off by one (9.999999 -> 99.99999)", ["C02"], ""),
+ "C02-J": ("B", "Grisu normalized_boundaries called with f32 for every type", "feature compact; f64 exact powers of two (254 of 2046): output reads back as the predecessor", ["C02"], ""),
+ "C03-I": ("A", "digit_log8: division by 3 replaced by a multiply-shift that is only exact up to log2 = 31", "power-of-two / radix without compact; radix 8; 64/128-bit types; magnitude >= 2^32 with particular bit lengths: one stale byte in front, length one too large", ["C03"], ""),
+ "C03-J": ("B", "u128_divrem_5 given the constants of u128_divrem_25", "feature radix without compact; radix 5; u128/i128 above u64::MAX: a surplus 0 per 27-digit chunk", ["C03"], ""),
+ "C04-I": ("A", "skip.rs take_n returns a sub-iterator that starts at index 0", "feature format; an explicit sign, more bytes than overflow_digits, first non-digit inside that window: error index / partial count too small by the sign", ["C04"], ""),
+ "C04-J": ("B", "parse_digits_checked!: take_n(start_index + overflow_digits)", "an explicit sign and more digits than overflow_digits: one more digit is accumulated with wrapping arithmetic (`+256` as u8 -> Ok(0))", ["C04"], ""),
+ "C05-I": ("A", "f32_max_digits(34) 127 -> 117", "feature radix; radix 34; f32; exact midpoints of floats below about 2^-115 (121-126 digits)", ["C05"], ""),
+ "C05-J": ("B", "BASE12_LOG2_MULT / SHIFT replaced by the 16-bit form", "feature radix; radix 12; parsed exponent in [-306, -298]: f64 result half its correct value", ["C05"], ""),
+ "C06-I": ("A", "step.rs min_step_32 (u64) 12 -> 13", "radix 32; positional output of values >= 2^59 with leading digit G..V: re-parsing wraps the 13-digit mantissa", ["C06"], ""),
+ "C06-J": ("B", "f32_exponent_limit(4) (-63, 63) -> (-64, 63)", "feature radix; f32; exponent base 4; exponent minus fraction digits exactly -64: 0.0 (release) / debug assertion", ["C06"], ""),
+ "C07-I": ("A", "no-std libm floord / floorf: the 'already an integer' thresholds off by one", "library built without `std`; f64; generic radix; odd integers x in [2^52, 2^53) with x % 4 == 1: a fraction character for the value `radix` itself", ["C07"], "run after `radix+nostd` had been added to the C07 quick plan (the property's checks had never built a no-std radix configuration)"),
+ "C07-J": ("B", "write_digits: the two digit pairs of the 4-digit loop are written in swapped order", "non-compact; exponent digits in radix 3 with |exp| >= 81 (and every non-decimal integer >= radix^4)", ["C07"], ""),
+ "C08-I": ("A", "format_flags::exponent_radix falls back to the exponent base when unset", "power-of-two / radix; mixed-base format without an explicit exponent radix; exponent notation: the writer spells the exponent in the mantissa radix, the parser reads it in the base", ["C08", "C05", "C06"], "missed at first: every mixed-base format of the catalogue set the exponent radix explicitly; five `MIX*_EUNSET` formats were added (catalogue 809)"),
+ "C08-J": ("B", "two hex digits transposed in the 5^33 row of the f32 Dragonbox table", "non-compact; f32 in [2^-83, 2^-79): wrong digits that parse back to another float", ["C08"], ""),
+ "C09-I": ("A", "step.rs min_step_8 (u64) 21 -> 22", "power-of-two / radix without compact; radix 8; u128/i128 in [2^64, 2^127): one byte written in front of the caller's slice", ["C09"], ""),
+ "C09-J": ("B", "integer buffer_size_const no longer reserves the byte of a required '+'", "feature format without power-of-two; required_mantissa_sign; unsigned types: the documented bound is one byte short", ["C09"], "run after `format` had been added to the C09 quick plan (the change is invisible when power-of-two makes FORMATTED_SIZE 128)"),
+ "C10-I": ("A", "Eisel-Lemire compute_float: subnormal guard `>= 64` -> `> 64` (a 64-bit shift by 64)", "decimal, non-compact; a short mantissa in exactly one binade far below the subnormals (f32 [2^-190, 2^-189), f64 [2^-1086, 2^-1085)): overflow-check panic in debug builds, a wrong large value in release", ["C10", "C01"], "missed by C10 at first (C01 reported the release-mode value): no generator placed short mantissas in binades far outside the range; binade sweeps (every binade from 300-400 below the smallest subnormal to 300-400 above the largest value x significands of 1-40 digits) were added to C01, C05, C19 and C10"),
+ "C10-J": ("B", "f32_exponent_limit(9) (-7, 7) -> (-8, 7)", "feature radix without compact; radix 9; f32; fast path with exponent exactly -8: index out of bounds panic", ["C10"], ""),
+ "C11-I": ("A", "algorithm!: the negative, cannot-overflow branch passes is_end = false", "format + power-of-two; base suffix; signed type; short negative input ending in the suffix: complete rejects what partial accepted", ["C11"], ""),
+ "C11-J": ("B", "float parse_partial_with_options parses with the STANDARD format", "any non-standard format through the float partial entry point", ["C11"], ""),
+ "C12-I": ("A", "uncased byte comparison by xor: (c ^ value) & !0x20 == 0", "a non-letter exponent character / base prefix / suffix (`^` is the default for radix >= 15) with the case-sensitive flag off: the byte differing in bit 5 (`~` for `^`) is accepted", ["C12"], "pre-empted: the alphabet gained the xor-0x20 neighbours of non-letter punctuation after the author's summary was read; before that only letters had their other case in the alphabet"),
+ "C12-J": ("B", "is_special_eq also tries the uncased comparison when the case-sensitive one failed, on an advanced cursor", "feature format; case_sensitive_special; partial special prefix + one mismatching byte + any-case special: `nNaN`, `xinf`", ["C12"], ""),
+ "C13-I": ("A", "slow::parse_mantissa re-reads the fraction with the integer iterator", "feature format; fraction separator flags differ from the integer's; slow path; a separator in the fraction is taken for a digit", ["C13"], ""),
+ "C13-J": ("B", "DigitsIter::read_if_value_cased reads the raw byte (does not skip separators)", "feature format; > 19 digits with a separator inside the leading zeros; a separator in front of a base prefix", ["C13"], ""),
+ "C14-I": ("A", "decimal write_float_scientific decides 'one digit, trim .0' before rounding", "non-compact; trim_floats + max_significant_digits; exponent notation; rounding collapses the mantissa to one digit: `1.0e21` instead of `1e21`", ["C14"], "missed at first: the trim clause did not judge exponent notation at all; it now demands that a one-digit integral mantissa loses its `.0` there too, and the recorded finding `c14_decimal_trim_not_applied_after_rounding` was narrowed to its real shape (rounding *without carry* leaves zeros inside the digit budget)"),
+ "C14-J": ("B", "binary write_float_scientific pads to min_significant_digits only when exact_count > cursor", "power-of-two radices, same base, exponent notation, min_significant_digits = digits + 1: one digit short", ["C14"], ""),
+ "C15-I": ("A", "the same edit as C12-G (case-sensitive starts_with consumes one byte too many), found independently", "feature format; case_sensitive_special; special string + one byte: `NaN1` -> NaN", ["C15"], ""),
+ "C15-J": ("B", "write_nan no longer adds the sign byte already written", "feature format; required_mantissa_sign; NaN is written as `+Na`", ["C15"], ""),
+ "C16-I": ("A", "the edit of C01-J / C05-E under the feature-additivity property", "feature compact only: value bits differ by one ulp for near-midpoint inputs in the largest subnormal binade", ["C16"], ""),
+ "C16-J": ("B", "split_radix (power-of-two without radix) loses its row for 5", "power-of-two without radix; decimal slow path with a negative exponent: always rounds up", ["C16"], ""),
+ "C17-I": ("A", "is_valid_letter_slice checks two bytes per iteration and skips the last byte of an odd-length slice", "an odd-length nan/inf string whose last byte is not a letter: accepted, the facade String is not UTF-8", ["C17"], ""),
+ "C17-J": ("B", "write_integer_signed forwards to write_integer in the power-of-two, non-compact variant", "power-of-two / radix without compact; negative i64/isize through the facade (exact 20-byte buffer): panic", ["C17"], ""),
+ "C18-I": ("A", "is_valid_punctuation no longer compares the digit separator with the base suffix", "format + power-of-two; separator == suffix: the format is reported valid and parsed with", ["C18"], ""),
+ "C18-J": ("B", "write-float inf_str_is_valid rejects exactly 50 bytes", "an inf_string of exactly 50 letters: is_valid() false, build() Ok", ["C18"], ""),
+ "C19-I": ("A", "step.rs min_step_34 (u64) 12 -> 11", "feature radix; radix 34; f64; lossy; >= 12 significant digits: 3-4 ulp low", ["C19"], ""),
+ "C19-J": ("B", "the edit of C15-B (round: `>= INFINITE_POWER` -> `>`), found independently", "compact (decimal) or radix: values in [2^1024, 2^1025) parse to NaN, lossy and exact alike", ["C19"], ""),
+}
+
+ROUNDS = [(T3, "/tmp/mut", 3), (T4, "/tmp/mut4", 4), (T5, "/tmp/mut5", 5)]
 
 
 def main():
